@@ -771,6 +771,10 @@ impl<'a> UdpNhcRepr {
             ]);
 
             packet.set_checksum(chk_sum);
+        } else {
+            // make sure we get a consistently zeroed checksum (and a cleared "checksum
+            // elided" bit), since the space for it is always reserved by header_len().
+            packet.set_checksum(0);
         }
     }
 }
